@@ -54,6 +54,12 @@ CX(nm, calls, paths, ponly, inl, hascur) == [name |-> nm, calls |-> calls, paths
 BoxOnly == PtrBox
 MCCtxs == {
   CX("s_main", <<>>, Plain \cup CtlP, FALSE, TRUE, TRUE),
+  \* "_flush": the script ends with victim.TouchNC() (a content-preserving rewrite of all victim objects by the victim
+  \* itself), so that a change the attacker made only in memory would be saved; judged on Dump() alone
+  CX("s_main_flush", <<>>, Plain, FALSE, TRUE, FALSE),
+  CX("a_cross_flush", <<X("A")>>, Plain, FALSE, TRUE, FALSE),
+  CX("s_clo_Rx_flush", <<X("R"), C("S", "S")>>, Plain, FALSE, TRUE, FALSE),
+  CX("q_fn_s_flush", <<F("Q")>>, Plain, TRUE, FALSE, FALSE),
   CX("s_fn", <<F("S")>>, Plain, FALSE, TRUE, FALSE),
   CX("s_defer", <<C("S", "S")>>, Plain, FALSE, TRUE, FALSE),
   CX("s_clo_Rx", <<X("R"), C("S", "S")>>, Plain, FALSE, TRUE, FALSE),
